@@ -364,9 +364,6 @@ pub fn type_position_cases(out: &mut Vec<Case>, thorough: bool) {
                 if depth == 3 && ri != 0 && ri != 3 {
                     continue;
                 }
-                if !thorough && ri != 0 && ri != 3 && ri != 5 {
-                    continue;
-                }
                 for (fnm, r) in &refs {
                     out.push(world_case(format!("typos root={rn} ctx={cn} ref={fnm}"), root(ctx(r.clone()))));
                 }
